@@ -19,6 +19,7 @@ PLAN = dict(
         dict(name="hist", run="^(TestPropHistory|TestFixedHistories)$", checks=(400, 50000), shards=(1, 16), timeout=(300, 3600)),
         dict(name="firstuse", run="^TestFirstUseConcurrent$", shards=(2, 16), timeout=(300, 3600), race=True),
         dict(name="sharedchain", run="^TestPropSharedChain$", checks=(150, 5000), shards=(1, 4), timeout=(400, 3600), race=True),
+        dict(name="conckind", run="^TestConcSameKind$", checks=(20, 1500), shards=(3, 8), timeout=(400, 3600), race=True),
         dict(name="concperm", run="^TestConcPermutations$", checks=(20, 1500), shards=(3, 8), timeout=(400, 3600), race=True),
         dict(name="conc", run="^TestPropConcurrent$", checks=(120, 15000), shards=(1, 4), timeout=(400, 3600), race=True),
     ],
